@@ -123,7 +123,7 @@ func (m *machine) Next(t *rapid.T) Op {
 	defs := m.definedSvcs()
 	// bootstrap: a service and a couple of bindings first
 	if len(defs) == 0 && uni(t, "boot/define", 10) < 9 {
-		return Op{Kind: "define", Who: uni(t, "who", 2), Svc: 0}
+		return Op{Kind: "define", Who: uni(t, "who", 2), Svc: 0, Opts: uni(t, "define/opts", 2) == 0}
 	}
 	if len(defs) > 0 && len(m.bindOrd) < 2 && uni(t, "boot/bind", 10) < 7 {
 		return m.genBind(t, defs)
@@ -139,12 +139,12 @@ func (m *machine) Next(t *rapid.T) Op {
 	active := m.activeReqs()
 	ws := []w{
 		{"define", 1}, {"bind", 6}, {"updbind", 4}, {"disable", 2}, {"enable", 3}, {"refund", 2}, {"setwd", 2},
-		{"call", 12}, {"mcall", 4}, {"respond", 6}, {"ctl", 6}, {"updctx", 3}, {"withdraw", 6}, {"params", 3}, {"block", 24},
+		{"call", 12}, {"mcall", 4}, {"respond", 6}, {"ctl", 6}, {"updctx", 3}, {"withdraw", 6}, {"params", 3}, {"block", 24}, {"restart", 3},
 	}
 	if c08 {
 		ws = []w{
 			{"define", 1}, {"bind", 5}, {"updbind", 2}, {"disable", 2}, {"enable", 2}, {"refund", 1}, {"setwd", 1},
-			{"call", 12}, {"mcall", 9}, {"respond", 6}, {"ctl", 12}, {"updctx", 4}, {"withdraw", 2}, {"params", 2}, {"block", 26},
+			{"call", 12}, {"mcall", 9}, {"respond", 6}, {"ctl", 12}, {"updctx", 4}, {"withdraw", 2}, {"params", 2}, {"block", 26}, {"restart", 3},
 		}
 	}
 	if swMultiDenom {
@@ -189,7 +189,7 @@ func (m *machine) Next(t *rapid.T) Op {
 
 	switch kind {
 	case "define":
-		return Op{Kind: "define", Who: uni(t, "who", 2), Svc: uni(t, "svc", (nServices-1)+1)}
+		return Op{Kind: "define", Who: uni(t, "who", 2), Svc: uni(t, "svc", (nServices-1)+1), Opts: uni(t, "define/opts", 2) == 0}
 	case "bind":
 		return m.genBind(t, defs)
 	case "updbind":
@@ -395,6 +395,23 @@ func (m *machine) Next(t *rapid.T) Op {
 			op.Prov = uni(t, "withdraw/anyprov", (nProviders-1)+1)
 		}
 		return op
+	case "restart":
+		// the as-is round trip is only admissible while every context is paused with a completed batch: propose it
+		// mostly when the model thinks so (Apply decides from the stored state and counts the skipped ones)
+		admissible := true
+		for _, c := range m.ctxs {
+			if c.exists && (c.state != servicetypes.PAUSED || (c.batch != nil && !c.batch.completed)) {
+				admissible = false
+			}
+		}
+		if len(m.bindOrd) == 0 && uni(t, "restart/early", 4) > 0 {
+			return m.genBind(t, defs) // a restart with nothing bound exercises little
+		}
+		asis := uni(t, "restart/asis", 10) < 1
+		if admissible {
+			asis = uni(t, "restart/asis", 10) < 6
+		}
+		return Op{Kind: "restart", AsIs: asis}
 	case "params":
 		return Op{Kind: "params", Params: m.drawParams(t)}
 	case "rate":
@@ -469,6 +486,7 @@ func (m *machine) genBind(t *rapid.T, defs []int) Op {
 		op.Who = o
 	}
 	op.Pricing = m.drawPricing(t)
+	op.Opts = uni(t, "bind/opts", 3) == 0
 	op.QoS = uint64(pickFrom(t, "bind/qos", []int{1, 1, 1, 1, 1, 2, 2, 3, 5}))
 	dep := bi(1)
 	if md, ok := m.params.minDeposit(*op.Pricing, baseDenom, m.rates); ok && md.Sign() > 0 {
